@@ -15,6 +15,11 @@ P = 'C12'
 def generator_by_enumeration(state_space, single, two, cyclic):
     """G[target, source] += rate, G[source, source] -= rate for every elementary reaction and every global state in
     which it can fire (C-order global index)"""
+    # everything in Python integers / floats: the tables may come as narrow NumPy integers (int8 state numbers), and the index
+    # arithmetic below must not be done in their type
+    state_space = [int(m) for m in state_space]
+    single = [[(int(r[0]), int(r[1]), float(r[2])) for r in cell] for cell in single]
+    two = [[(int(r[0]), int(r[1]), int(r[2]), int(r[3]), float(r[4])) for r in bond] for bond in two]
     d = len(state_space)
     n = int(np.prod(state_space))
     G = np.zeros((n, n))
